@@ -56,13 +56,13 @@ type problem struct {
 }
 
 type state struct {
-	dump   polyenv.Dump
-	mask   uint64 // model: nodes believed stored (bit i)
-	head   string
-	headH  uint64
-	probs  []problem
-	class  []string
-	hskey  string
+	dump  polyenv.Dump
+	mask  uint64 // model: nodes believed stored (bit i)
+	head  string
+	headH uint64
+	probs []problem
+	class []string
+	hskey string
 }
 
 func hsKey(d polyenv.Dump, mask uint64) string {
@@ -162,9 +162,9 @@ type treeStats struct {
 
 // pair modes of the event menu
 const (
-	pairsAll      = iota // every ordered pair of nodes (and (i,i))
-	pairsRelated         // (i,i), (parent,child), (child,parent), (grandparent,grandchild)
-	frontierOnly         // fork-pair family: per state only the frontier of each fork (next, next+1, last stored) and their pairs
+	pairsAll     = iota // every ordered pair of nodes (and (i,i))
+	pairsRelated        // (i,i), (parent,child), (child,parent), (grandparent,grandchild)
+	frontierOnly        // fork-pair family: per state only the frontier of each fork (next, next+1, last stored) and their pairs
 )
 
 // eventMenu: single-header submissions, batches of two, invalid headers.
